@@ -32,6 +32,7 @@ let txth (toks : string list) : string =
       | "H" :: k :: r -> ops (THas (parse_l k) :: acc) r
       | "G" :: k :: r -> ops (TGet (parse_l k) :: acc) r
       | "R" :: r -> ops acc r      (* save + load in mid-history: the identity on title and entries (C06_history_round_trip) *)
+      | "Z" :: r -> ops acc r      (* serialize and discard: serialize is a function of the state, so a no-op *)
       | [] -> List.rev acc
       | x :: _ -> failwith ("txth: bad token " ^ x) in
     (match TextCodec.history_file name_key Checked fmt endian (ops [] rest) with
